@@ -181,25 +181,50 @@ pub enum RunKind {
     Crowd,
 }
 
-/// the stall-and-wrap run over a filler pool (entries 0..n are distinct calls of one evaluator)
+/// the stall-and-wrap run over a filler pool (the leading Ok entries are distinct calls of one evaluator, short and
+/// long formulas alternating; the trailing entries are distinct failing calls)
 fn stall_wrap_spec(pool: &Pool, seed: u64, base: usize) -> RunSpec {
     let mut r = Rng::new(mix(seed, 0x7374_616c));
-    let n = pool.entries.len();
-    // number of distinct calls made while the victim is parked: base - 8 ..= base + 72, as far as the pool allows
-    let w = (base + r.below(81)).saturating_sub(8).min(n.saturating_sub(3)).max(1);
-    let mut busy: Vec<u32> = (0..w as u32).collect();
+    let n_ok = pool.entries.iter().take_while(|e| matches!(e.oracle, Outcome::Ok(_))).count().max(4);
+    let n_fail = pool.entries.len() - n_ok;
+    // which fillers: all (short and long alternate), only the short ones, only the long ones - state that engages
+    // above (or below) a length threshold counts only one kind
+    let mode = if base * 2 + 200 > n_ok { 0 } else { r.below(3) };
+    let idx = |j: usize| -> u32 {
+        (match mode {
+            0 => j,
+            1 => 2 * j,
+            _ => 2 * j + 1,
+        }) as u32
+    };
+    let avail = if mode == 0 { n_ok } else { n_ok / 2 };
+    // number of distinct calls made while the victim is parked: exactly base - 1, base or base + 1 (a ring of 2^k
+    // entries is back at the victim's entry after exactly 2^k operations), or anywhere in base - 8 ..= base + 72
+    let w = if r.chance(0.6) { base + r.below(3) - 1 } else { (base + r.below(81)).saturating_sub(8) };
+    let w = w.min(avail.saturating_sub(3)).max(1);
+    let mut busy: Vec<u32> = (0..w).map(|j| idx(j)).collect();
+    // how the busy caller's last call before the victim resumes ends: completed, failed (a reservation a failing call
+    // never completes stays open), or still in flight (parked in the middle of it)
+    let variant = r.below(3);
+    if variant == 1 && n_fail > 0 {
+        busy[w - 1] = (n_ok + r.below(n_fail)) as u32;
+    }
     // then the most recent calls again (what a wrapped ticket / recycled slot would have corrupted)
     let back = 70.min(w);
-    busy.extend((w - back..w).rev().map(|i| i as u32));
-    let victim_entry = (w + 1).min(n - 1) as u32;
+    let again: Vec<u32> = (w - back..w).rev().map(|i| busy[i]).collect();
+    busy.extend(again);
+    let victim_entry = idx((w + 1).min(avail - 1));
     let victim_ticks = pool.entries[victim_entry as usize].ticks.max(1) as usize;
     let t0 = 1 + r.below(victim_ticks) as u32;
     // clients: 0 = busy, 1 = victim (two calls: the parked one and a repeat of it)
     let clients = vec![busy, vec![victim_entry, victim_entry]];
-    let switches = vec![
-        crate::sim::Sw { thread: 1, call: 0, tick: t0, to: 0 },
-        crate::sim::Sw { thread: 0, call: w as u32, tick: 0, to: 1 },
-    ];
+    let mut switches = vec![crate::sim::Sw { thread: 1, call: 0, tick: t0, to: 0 }];
+    if variant == 2 {
+        let last_ticks = pool.entries[clients[0][w - 1] as usize].ticks.max(1) as usize;
+        switches.push(crate::sim::Sw { thread: 0, call: (w - 1) as u32, tick: 1 + r.below(last_ticks) as u32, to: 1 });
+    } else {
+        switches.push(crate::sim::Sw { thread: 0, call: w as u32, tick: 0, to: 1 });
+    }
     RunSpec {
         seed,
         clients,
